@@ -180,13 +180,19 @@ def run_case(case):
         elif k == "reload":
             def f():
                 nonlocal coll
-                coll = myjson.loads(coll.dumps())
+                m2 = myjson.loads(coll.dumps())
+                if not isinstance(m2, metabook.Collection):
+                    raise TypeError("loads(dumps()) is a %s" % type(m2).__name__)
+                coll = m2
                 return "ok"
             out.append(guarded(f))
         elif k == "loadtext":
             def f():
                 nonlocal coll
-                coll = myjson.loads(op[1])
+                m2 = myjson.loads(op[1])
+                if not isinstance(m2, metabook.Collection):
+                    raise TypeError("loads(text) is a %s" % type(m2).__name__)
+                coll = m2
                 return plain(coll)
             out.append(guarded(f))
         elif k == "walk":
@@ -196,6 +202,8 @@ def run_case(case):
             def f():
                 t1 = coll.dumps()
                 m2 = myjson.loads(t1)
+                if not isinstance(m2, metabook.Collection):
+                    return {"m": plain(coll), "m2": plain(m2), "t1": t1, "not_object": True}
                 t2 = m2.dumps()
                 t3 = myjson.loads(t2).dumps()
                 return {"m": plain(coll), "m2": plain(m2), "t1": t1, "t2": t2, "t3": t3, "checksum": metabook.calc_checksum(coll),
@@ -245,6 +253,12 @@ def main():
             res = {"id": case["id"], "out": run_case(case)}
         except Exception as e:
             res = {"id": case["id"], "harness_error": "%s: %s" % (type(e).__name__, e)}
+        # hygiene between cases: a polluted class-level default (reported by the `shared` op of the case that
+        # caused it) must not snowball through all later cases
+        for cls in CLASSES.values():
+            for k, v in list(vars(cls).items()):
+                if isinstance(v, list) and v and not k.startswith("__"):
+                    del v[:]
         sys.stdout.write(json.dumps(res) + "\n")
     sys.stdout.flush()
 
